@@ -40,13 +40,13 @@ def ort_run(model, feeds: dict, session=None):
         sess = session or ort_session(model)
     except Exception as e:
         msg = f"{type(e).__name__}: {e}"
-        return ("not_implemented" if classify(msg) == "not_implemented" else "load"), msg[:600]
+        return ("not_implemented" if classify(msg) == "not_implemented" else "load"), msg[:900]
     try:
-        names = {i.name for i in sess.get_inputs()}
+        names = {i.name for i in sess.get_inputs()} | {i.name for i in sess.get_overridable_initializers()}
         out = sess.run(None, {k: v for k, v in feeds.items() if k in names})
     except Exception as e:
         msg = f"{type(e).__name__}: {e}"
-        return ("not_implemented" if classify(msg) == "not_implemented" else "run"), msg[:600]
+        return ("not_implemented" if classify(msg) == "not_implemented" else "run"), msg[:900]
     return "ok", out
 
 
